@@ -12,6 +12,11 @@ ENGINE = "e1-bounded-enumeration"
 
 MENU5 = ["Muss [1]", "Soll", "Soll [1][902]", "Soll [3]", "Muss [2] S[1]"]
 MENU3 = ["Muss [1]", "s", "Soll [3]"]
+# multi-part expressions with SOLL in every position of the part list: leading, in the middle, as the trailing BARE mark behind
+# conditional parts (deciding when no earlier part is fulfilled; keys: 1 fulfilled, 2 unfulfilled), twice, in the short spelling
+MENU_PARTS = ["Muss [1]", "Muss [2] Soll", "Muss [1] Soll", "Soll [2] Kann", "Kann [2] s", "Soll [2] Muss [2] Soll", "Muss [2] Soll [2] Kann [1]",
+              "Soll [2] SOLL"]
+PARTS_NODES = {"quick": 3, "thorough": 4}
 CHAIN_SHAPE = (("G", (("G", (), (("S", ("F",)),)),), ()),)
 BOUNDS = {"quick": {"n5": 4, "n3": 4, "cers": 1}, "thorough": {"n5": 5, "n3": 6, "cers": 2}}
 
@@ -19,7 +24,7 @@ BOUNDS = {"quick": {"n5": 4, "n3": 4, "cers": 1}, "thorough": {"n5": 5, "n3": 6,
 def describe(tier):
     b = BOUNDS[tier]
     return {
-        "rule": f"every AHB tree shape with <= {b['n5']} nodes x every labelling from {MENU5} (and <= {b['n3']} nodes x {MENU3}) that contains at "
+        "rule": f"every AHB tree shape with <= {b['n5']} nodes x every labelling from {MENU5} (and <= {b['n3']} nodes x {MENU3}; <= {PARTS_NODES[tier]} nodes x the multi-part menu {MENU_PARTS} with SOLL in every position of the part list incl. the trailing bare mark) that contains at "
                 "least one SOLL part, value pools with a SOLL entry included; the chain group->group->segment->free text with all 4-long "
                 f"sequences from the C13 menu containing SOLL; x {b['cers']} content evaluation results x both flag values. Oracle "
                 "(metamorphic): validate(ahb, flag) == validate(ahb with every SOLL rewritten to MUSS if flag else KANN, flag') for BOTH "
@@ -88,6 +93,12 @@ def plan(tier, seed):
                 for c in range(chunks):
                     items.append({"fam": fam, "cer": cer, "shape": si, "nmax": nmax, "nmin": nmin, "lo": c * total // chunks,
                                   "hi": (c + 1) * total // chunks})
+        for si, s in enumerate(T.shapes(PARTS_NODES[tier], 1)):
+            total = len(MENU_PARTS) ** T.count_nodes(s)
+            chunks = max(1, total // 400)
+            for c in range(chunks):
+                items.append({"fam": "tp", "cer": cer, "shape": si, "nmax": PARTS_NODES[tier], "nmin": 1, "lo": c * total // chunks,
+                              "hi": (c + 1) * total // chunks})
     return items
 
 
@@ -189,7 +200,7 @@ def run_item(item):
     else:
         shape = [s for s in T.shapes(item["nmax"], item["nmin"])][item["shape"]]
         n = T.count_nodes(shape)
-        gen = itertools.product(MENU5 if item["fam"] == "t5" else MENU3, repeat=n)
+        gen = itertools.product({"t5": MENU5, "t3": MENU3, "tp": MENU_PARTS}[item["fam"]], repeat=n)
         rng = (item["lo"], item["hi"])
     for k, exprs in enumerate(gen):
         if rng and not rng[0] <= k < rng[1]:
